@@ -96,7 +96,7 @@ CHECKS = {
    text='PARTIAL. Proved for all abstract schemas A, B, all valid matchings (whichever plan the similarity heuristic picks) and all dependency-respecting orders: applying the diff to A gives exactly B, nothing of A outside B remains, the planner (using the C20 sort_ex model) never returns a plan that errors; partition theorems for the delta_objects transliteration '
         '(every new object created xor paired, every old object deleted xor paired, alter only for 0.6 < similarity < 1). Tie: the real edb.schema.delta.delta_objects on stub objects with scripted compare vs the model (exact), and the real top-level partition of every accepted migration checked by the extracted checker. '
         'The end-to-end statement is decided on the REAL code by differential monitors (not proofs): generated schema pairs over a feature grammar with ~80 mutation operators through apply_sdl -> delta_schemas -> ddlast_from_delta -> CREATE MIGRATION, in three forms (committed schema, command tree applied directly, migration text replayed); '
-        'equivalence = the repo\'s own delta_schemas is empty AND an independent structural dump is equal. Six genuine defects are known findings. Since round 2 every fourth generated pair is also driven through the SERVER compiler\'s migration block (edb/server/compiler/ddl.py) on a compiler connection state: START/POPULATE/COMMIT MIGRATION, and an interactive session (DESCRIBE CURRENT MIGRATION AS JSON; proposals executed or rejected with ALTER CURRENT MIGRATION REJECT PROPOSED by a deterministic policy; POPULATE; COMMIT): whenever COMMIT MIGRATION is accepted the result must be the target.',
+        'equivalence = the repo\'s own delta_schemas is empty AND an independent structural dump is equal. Six genuine defects are known findings. Since round 2 every fifth generated pair is also driven through the SERVER compiler\'s migration block (edb/server/compiler/ddl.py) on a compiler connection state: START/POPULATE/COMMIT MIGRATION, and an interactive session (DESCRIBE CURRENT MIGRATION AS JSON; proposals executed or rejected with ALTER CURRENT MIGRATION REJECT PROPOSED by a deterministic policy; POPULATE; COMMIT): whenever COMMIT MIGRATION is accepted the result must be the target.',
    note='Trusted: Coq kernel; extraction; harness (generator, structural dump, classifier); vrt substrate. NOT modelled: the real compare / as_alter_delta / _get_ast / linearize_delta / apply code of ~40 object classes — mutations there are caught by the monitors, not by a broken proof. Planner completeness is not proved. The testbase migration path (run_ddl) is used, not the server compiler path. No axioms.'),
  'C10': dict(
    category='proof', design_ref='DESIGN.md section 4, C02/C10/C03/C11 (+ section 9 change log)',
